@@ -44,6 +44,42 @@ fn c01_conc(rng: &mut Rng, name: &'static str) -> Prepared {
     prep(conc(rng, "C01", name, &p))
 }
 
+/// Full cache of short-lived TTL keys, puts that need several victims, many sweeps and a worker
+/// that is often stalled in the middle of making space: the sweeper frees sampled victims while
+/// the worker still holds the sample.
+fn c01_evict_vs_sweep(rng: &mut Rng, name: &'static str) -> Prepared {
+    let mut p = ConcParams::base();
+    p.observer = true;
+    p.keys = (5, 8);
+    p.threads = (2, 3);
+    p.ops = (4, 10);
+    p.ttl_pct = 60;
+    // Tight: most keys are resident and a heavy newcomer needs several light victims
+    p.pressure = *rng.pick(&[Pressure::Tight, Pressure::Tight, Pressure::Over]);
+    p.extra_sweeps = true;
+    p.upsert_may_raise = false;
+    p.stall_pct = 75;
+    p.stall_roles = vec![RoleName::Worker, RoleName::Worker, RoleName::Sweeper];
+    p.mix = [52, 8, 6, 16, 12, 1, 3, 2];
+    p.hash_modes = vec![HashMode::Identity, HashMode::Mixed];
+    // one heavy key (55-90 % of the limit): putting it needs nearly every resident key as a victim
+    p.heavy_key = true;
+    let mut sc = conc(rng, "C01", name, &p);
+    sc.cfg.shards = 2;
+    // a second clock / sweep thread: small advances so that keys expire one after the other
+    let n = rng.range(4, 10) as usize;
+    let mut prog = vec![];
+    for _ in 0..n {
+        match rng.below(10) {
+            0..=3 => prog.push(Op::Advance(*rng.pick(&[Dur { s: 0, n: 300_000_000 }, Dur { s: 0, n: 999_999_999 }, Dur { s: 1, n: 0 }, Dur { s: 1, n: 500_000_000 }]))),
+            4..=7 => prog.push(Op::Tick),
+            _ => prog.push(Op::Rotate),
+        }
+    }
+    sc.threads.push(prog);
+    prep(sc)
+}
+
 // ---------------------------------------------------------------- C02
 fn c02_conc(rng: &mut Rng, name: &'static str) -> Prepared {
     let mut p = ConcParams::base();
@@ -911,6 +947,54 @@ fn c07_conc(rng: &mut Rng, name: &'static str) -> Prepared {
     prep(conc(rng, "C07", name, &p))
 }
 
+/// Owners delete their key (often without awaiting), delete it again and await that, then put it:
+/// once any delete of the key has been acknowledged the key is gone for good and the put is
+/// decided by admission alone, however far the worker lags behind.
+fn c07_delete_twice(rng: &mut Rng, name: &'static str) -> Prepared {
+    let mut p = ConcParams::base();
+    p.keys = (2, 4);
+    p.threads = (1, 3);
+    p.ttl_pct = 0;
+    p.time_thread = false;
+    p.pressure = Pressure::Fits;
+    p.tiny_queue_pct = 50;
+    p.stall_pct = 60;
+    p.stall_roles = vec![RoleName::Worker];
+    let mut sc = conc(rng, "C07", name, &p);
+    let n = sc.threads.len();
+    let keys = sc.cfg.keys;
+    let mut threads = vec![];
+    for t in 0..n {
+        let mine: Vec<u32> = (0..keys).filter(|k| (*k as usize) % n == t).collect();
+        let mut prog = vec![];
+        if mine.is_empty() {
+            prog.push(crate::gen::gen_read(rng, keys));
+        }
+        for _ in 0..rng.range(1, 3) {
+            for &k in &mine {
+                let i = prog.len();
+                prog.push(Op::Put { key: k, val: token(t, i, k), weight: None, ttl: None, wait: *rng.pick(&[Wait::Now, Wait::Later]) });
+                if rng.chance(1, 2) {
+                    prog.push(crate::gen::gen_read(rng, keys));
+                }
+                prog.push(Op::Delete { key: k, wait: *rng.pick(&[Wait::Never, Wait::Later, Wait::Now]) });
+                if rng.chance(7, 10) {
+                    prog.push(Op::Delete { key: k, wait: Wait::Now });
+                }
+                if rng.chance(1, 3) {
+                    prog.push(crate::gen::gen_read(rng, keys));
+                }
+                let i = prog.len();
+                prog.push(Op::Put { key: k, val: token(t, i, k), weight: None, ttl: None, wait: Wait::Now });
+            }
+        }
+        prog.push(Op::AwaitAll);
+        threads.push(prog);
+    }
+    sc.threads = threads;
+    prep(sc)
+}
+
 /// Owners issue unawaited weight / value upserts on their own live keys (no TTLs, nothing can be
 /// evicted): the final charged weight and value are determined by program order.
 fn c08_conc(rng: &mut Rng, name: &'static str) -> Prepared {
@@ -1057,6 +1141,9 @@ fn x_seek_d4(rng: &mut Rng, name: &'static str) -> Prepared {
 fn x_seek_d5(rng: &mut Rng, name: &'static str) -> Prepared {
     x_seek(rng, name, "D5")
 }
+fn x_seek_d6(rng: &mut Rng, name: &'static str) -> Prepared {
+    x_seek(rng, name, "D6")
+}
 
 macro_rules! seq_stratum {
     ($fname:ident, $prop:expr, $online:expr, $lo:expr, $hi:expr) => {
@@ -1080,7 +1167,8 @@ pub fn plan(property: &str) -> Vec<Stratum> {
     let mut v = match property {
         "C01" => vec![
             Stratum { name: "conc-shrink-vs-sweep", share: 2, gen: c01_shrink },
-            Stratum { name: "conc-observer", share: 4, gen: c01_conc },
+            Stratum { name: "conc-observer", share: 3, gen: c01_conc },
+            Stratum { name: "conc-evict-vs-sweep", share: 3, gen: c01_evict_vs_sweep },
             Stratum { name: "seq-model", share: 3, gen: c01_seq },
             Stratum { name: "seq-many-light-keys", share: 2, gen: c01_seq_many_light },
         ],
@@ -1098,7 +1186,11 @@ pub fn plan(property: &str) -> Vec<Stratum> {
             Stratum { name: "seq-model", share: 1, gen: c05_seq },
         ],
         "C06" => vec![Stratum { name: "seq-admission", share: 7, gen: c06_seq }, Stratum { name: "seq-admission-racing-consumer", share: 3, gen: c06_seq_race }],
-        "C07" => vec![Stratum { name: "seq-lifecycle", share: 7, gen: c07_seq }, Stratum { name: "conc-same-key-puts", share: 3, gen: c07_conc }],
+        "C07" => vec![
+            Stratum { name: "seq-lifecycle", share: 6, gen: c07_seq },
+            Stratum { name: "conc-same-key-puts", share: 3, gen: c07_conc },
+            Stratum { name: "conc-delete-twice-then-put", share: 1, gen: c07_delete_twice },
+        ],
         "C08" => vec![Stratum { name: "seq-upsert", share: 7, gen: c08_seq }, Stratum { name: "conc-unawaited-upserts", share: 3, gen: c08_conc }],
         "C09" => vec![
             Stratum { name: "seq-clock", share: 4, gen: c09_seq },
@@ -1133,8 +1225,19 @@ pub fn plan(property: &str) -> Vec<Stratum> {
             }
         }
     }
+    if property == "C06" && is_open("D5") {
+        // admission decisions taken while the total is *over* the limit (reachable through D5 only)
+        v.push(Stratum { name: "seek-D5", share: 1, gen: x_seek_d5 });
+    }
     match property {
-        "C01" | "C07" | "C08" => {}
+        "C01" | "C08" => {
+            // D6 (removing the TTL of a key charged <= 24) panics in the caller on the unchanged
+            // tree (C17's finding, noted here); should it stop panicking, what it does to the
+            // charged weight is this property's business
+            if is_open("D6") {
+                v.push(Stratum { name: "seek-D6", share: 1, gen: x_seek_d6 });
+            }
+        }
         "C17" => {
             if is_open("D6") {
                 v.push(Stratum { name: "seek-D6", share: 1, gen: c17_seek });
@@ -1212,6 +1315,11 @@ pub fn judge(property: &str, sc: &Scenario, out: &RunOutput, _rec: &SchedRecord)
         }
     }
     // generic reach probes
+    if conc {
+        for p in race_probes(&hx) {
+            v.probes.push(p);
+        }
+    }
     for c in &out.chans {
         if c.role == "worker" && c.send_blocked > 0 {
             v.probes.push("fault.command_queue_full");
@@ -1221,6 +1329,54 @@ pub fn judge(property: &str, sc: &Scenario, out: &RunOutput, _rec: &SchedRecord)
         }
     }
     v
+}
+
+/// "This rare overlap of two background threads was reached" probes (concurrent families).
+fn race_probes(hx: &Hx) -> Vec<&'static str> {
+    use crate::hist::Hook;
+    let mut p = vec![];
+    // the sweeper expired an entry while the worker was making space; and: that entry was in the
+    // worker's eviction sample
+    let mut in_space = false;
+    let mut sampled: Vec<u64> = vec![];
+    let (mut during, mut sampled_swept, mut evict_after_sweep) = (false, false, false);
+    let mut swept_in_this_space = false;
+    for (_, role, ev) in &hx.hooks {
+        match ev {
+            Hook::CreateSpace { .. } => {
+                in_space = true;
+                sampled.clear();
+                swept_in_this_space = false;
+            }
+            Hook::Victim { sample, .. } if in_space => {
+                for s in sample {
+                    if !sampled.contains(&s.0) {
+                        sampled.push(s.0);
+                    }
+                }
+            }
+            Hook::Evicted { .. } if in_space && swept_in_this_space => evict_after_sweep = true,
+            Hook::ApplyEnd { .. } if role == "worker" => in_space = false,
+            Hook::SweepExpired { id, .. } if in_space => {
+                during = true;
+                swept_in_this_space = true;
+                if sampled.contains(id) {
+                    sampled_swept = true;
+                }
+            }
+            _ => {}
+        }
+    }
+    if during {
+        p.push("race.sweep_expired_while_worker_makes_space");
+    }
+    if sampled_swept {
+        p.push("race.sampled_victim_swept_under_the_worker");
+    }
+    if evict_after_sweep {
+        p.push("race.eviction_continued_after_concurrent_sweep");
+    }
+    p
 }
 
 fn seq_probes(hx: &Hx) -> Vec<&'static str> {
